@@ -41,18 +41,18 @@ type Prog struct {
 func lit(z int64) *Expr     { return &Expr{Kind: "lit", Z: z} }
 func accplus(k int64) *Expr { return &Expr{Kind: "accplus", Z: k} }
 
-func Push(c int, z int64) Op   { return Op{Kind: "push", C: c, E: lit(z)} }
-func PushGot(c int) Op         { return Op{Kind: "push", C: c, E: &Expr{Kind: "got"}} }
-func PushAcc(c int) Op         { return Op{Kind: "push", C: c, E: &Expr{Kind: "acc"}} }
-func Pop(c int) Op             { return Op{Kind: "pop", C: c} }
-func Range(c int) Op           { return Op{Kind: "range", C: c} }
-func Select(cs ...int) Op      { return Op{Kind: "select", Cs: cs} }
-func Close(c int) Op           { return Op{Kind: "close", C: c} }
-func Load(x int) Op            { return Op{Kind: "load", X: x} }
-func Store(x int, e *Expr) Op  { return Op{Kind: "store", X: x, E: e} }
-func Fail() Op                 { return Op{Kind: "fail"} }
-func Lock(m int, b ...Op) Op   { return Op{Kind: "lock", M: m, Body: b} }
-func Catch(b ...Op) Op         { return Op{Kind: "catch", Body: b} }
+func Push(c int, z int64) Op    { return Op{Kind: "push", C: c, E: lit(z)} }
+func PushGot(c int) Op          { return Op{Kind: "push", C: c, E: &Expr{Kind: "got"}} }
+func PushAcc(c int) Op          { return Op{Kind: "push", C: c, E: &Expr{Kind: "acc"}} }
+func Pop(c int) Op              { return Op{Kind: "pop", C: c} }
+func Range(c int) Op            { return Op{Kind: "range", C: c} }
+func Select(cs ...int) Op       { return Op{Kind: "select", Cs: cs} }
+func Close(c int) Op            { return Op{Kind: "close", C: c} }
+func Load(x int) Op             { return Op{Kind: "load", X: x} }
+func Store(x int, e *Expr) Op   { return Op{Kind: "store", X: x, E: e} }
+func Fail() Op                  { return Op{Kind: "fail"} }
+func Lock(m int, b ...Op) Op    { return Op{Kind: "lock", M: m, Body: b} }
+func Catch(b ...Op) Op          { return Op{Kind: "catch", Body: b} }
 func Incr(m, x int, k int64) Op { return Lock(m, Load(x), Store(x, accplus(k))) }
 
 // CountOps counts operations including nested ones.
